@@ -1509,7 +1509,8 @@ SPECIAL_IMPLS = {
 
         let token = parser.expect_token(context, A2lTokenType::String)?;
         let __a2ml_text_location = parser.get_line_offset();
-        let a2ml_text = parser.get_token_text(token).to_string();
+        // the writer always uses "\n" line endings, so the text is stored in that form
+        let a2ml_text = parser.get_token_text(token).replace("\r\n", "\n");
 
         let filename = &parser.filenames[context.fileid];
         let merged_a2ml_text = match a2ml::parse_a2ml(filename, &a2ml_text) {
